@@ -78,9 +78,11 @@ func builtinDateToISOString(call FunctionCall) Value {
 func builtinDateToJSON(call FunctionCall) Value {
 	obj := call.thisObject()
 	value := obj.DefaultValue(defaultValueHintNumber) // FIXME object.primitiveNumberValue
-	// FIXME fv.isFinite
-	if fv := value.float64(); math.IsNaN(fv) || math.IsInf(fv, 0) {
-		return nullValue
+	// 15.9.5.44 step 3: null only if the primitive is a Number and not finite.
+	if value.IsNumber() {
+		if fv := value.float64(); math.IsNaN(fv) || math.IsInf(fv, 0) {
+			return nullValue
+		}
 	}
 
 	toISOString := obj.get("toISOString")
